@@ -203,7 +203,11 @@ TLeaves(shape, j1, j2, j3) ==
     [] shape = 5 -> <<Leaf(<<"K">>, Cls("K", Pal[j1], <<Meth("m1", Pal[j2]), Meth("m2", Pal[j3])>>)), Leaf(<<"h">>, Fn("h", Pal[j3]))>>   \* [K, h]
     [] shape = 7 -> <<Leaf(<<"top", "mid", "f">>, Fn("f", Pal[j1])), Leaf(<<"top", "mid", "g">>, Fn("g", Pal[j2])),              \* {"top": {"mid": {f, g}, "alt": {h}}, "u": u}
                       Leaf(<<"top", "alt", "h">>, Fn("h", Pal[j3])), Leaf(<<"u">>, Fn("u", Pal[j3]))>>
-    [] shape = 8 -> <<Leaf(<<"config">>, Fn("config", Pal[j1])), Leaf(<<"h">>, Fn("h", Pal[j3]))>>                              \* a component called config (recorded deviation)
+    \* shape 8 used to be a component CALLED config (finding sub-named-config).  Since the repair 7c4a568 made such a
+    \* component selectable, the collision of its name with the dest of --config shows in ever more ways (its keys are
+    \* not validated, a --config after it is taken for its key, a method of that name loses its section ...): the Alg
+    \* layer does not transcribe them, so the name is outside the instance; the finding keeps its by-hand reproductions.
+    [] shape = 8 -> <<Leaf(<<"conf">>, Fn("conf", Pal[j1])), Leaf(<<"h">>, Fn("h", Pal[j3]))>>
     [] OTHER     -> <<Leaf(<<"grp", "K">>, Cls("K", Pal[j1], <<Meth("m1", Pal[j2]), Meth("m2", Pal[j3])>>)), Leaf(<<"f">>, Fn("f", Pal[j3]))>>
 RECURSIVE Words(_), NestMap(_, _)
 Words(path) == IF path = << >> THEN << >> ELSE <<PosTok(VStr(Head(path)))>> \o Words(Tail(path))
